@@ -32,14 +32,21 @@ theorem raw_ignores_input (fuel : Nat) (b i1 i2 : Bytes) : rewrite (fuel + 1) (.
 theorem multi_nil_writes_nothing (fuel : Nat) (i : Bytes) : rewrite (fuel + 2) (.multi []) i = .ok [] := by
   simp [rewrite, rewriteMulti]
 
-/-! ## rewriters = record-level specification (proofs in Enc/Lemmas/ProtoRewriteSpec*.lean, 2.4 k lines) -/
+/-! ## rewriters = record-level specification (proofs in Enc/Lemmas/ProtoRewriteSpec*.lean, 2.8 k lines)
+
+Trees covered: ALL `Rw` constructors — `raw`, `multi`, `message`, `embedded`, and the two that only
+`ParseRewriteTemplate` builds, `embeddedMerge` (`embddedRewriter{merge: true}`) and `replacement` — nested in any way.
+`rwOK` only asks: table indices below the table length, field numbers of `embedded`/`embeddedMerge` in `1 … 2^61-1`.
+`hasEmb` is true when the tree contains an `embedded` or `embeddedMerge` node. -/
 
 open Lemmas.ProtoRewriteSpec Spec.Protobuf in
 /-- **MAIN.** For every well-formed rewriter tree (`rwOK`: table indices below the table length, embedded field numbers
-in range) and every input on which the record-level specification is defined (in particular every valid encoded
-message), the rewriter as coded — seen-set, first occurrence rewritten, later occurrences dropped, untemplated fields
-copied through `Append`, absent templated fields appended, length prefix spliced in front of rewritten sub-messages —
-returns a VALID message whose records are the specification's. `Sim false` is equality; below `embedded` rewriters
+in range; all six constructors, `embeddedMerge` and `replacement` included) and every input on which the record-level
+specification is defined (in particular every valid encoded message), the rewriter as coded — seen-set, first
+occurrence rewritten (an `embddedRewriter{merge: true}` in the table slot is handed the concatenation of ALL
+length-delimited occurrences of its field, a `replacement` starts from the empty input), later occurrences dropped,
+untemplated fields copied through `Append`, absent templated fields appended, length prefix spliced in front of
+rewritten sub-messages — returns a VALID message whose records are the specification's. `Sim false` is equality; below `embedded` rewriters
 (`Sim true`) a sub-message that was copied verbatim may differ from the specification's canonical re-encoding in the
 bytes of non-minimal varints only, never in its records. -/
 theorem rewrite_spec (r : Rw) (inp : Bytes) (sf : Nat) (recs : List (Nat × WireVal)) (hok : rwOK r = true)
@@ -49,7 +56,8 @@ theorem rewrite_spec (r : Rw) (inp : Bytes) (sf : Nat) (recs : List (Nat × Wire
   Lemmas.ProtoRewriteSpec.rewrite_spec r inp sf recs hok hsz hs
 
 open Lemmas.ProtoRewriteSpec Spec.Protobuf in
-/-- without `embedded` nodes: the parsed output IS the specification's record list -/
+/-- without `embedded` / `embeddedMerge` nodes (`raw`, `multi`, `message`, `replacement` in any nesting): the parsed output
+IS the specification's record list -/
 theorem rewrite_spec_exact (r : Rw) (inp : Bytes) (sf : Nat) (hok : rwOK r = true) (hne : hasEmb r = false)
     (hsz : sizeM r * (inp.length + 1) < 2 ^ 64) (hdef : (specRw sf (toSpec r) inp).isSome = true) :
     ∃ out, (∀ fuel, inp.length + fuelD r ≤ fuel → rewrite fuel r inp = .ok out) ∧
@@ -57,7 +65,8 @@ theorem rewrite_spec_exact (r : Rw) (inp : Bytes) (sf : Nat) (hok : rwOK r = tru
   Lemmas.ProtoRewriteSpec.rewrite_spec_exact r inp sf hok hne hsz hdef
 
 open Lemmas.ProtoRewriteSpec Spec.Protobuf in
-/-- fields the template does not mention are carried over in their original order with identical values -/
+/-- fields the template does not mention are carried over in their original order with identical values (any entries,
+`embeddedMerge` and `replacement` included) -/
 theorem untemplated_fields_kept (len : Nat) (rs : List (Nat × Rw)) (inp : Bytes) (recs0 result : List (Nat × WireVal))
     (sf : Nat) (hok : entsOK len rs = true) (hv : parse (inp.length + 1) inp = some recs0)
     (hsz : (20 + sizeMEnts rs) * (inp.length + 1) < 2 ^ 64)
@@ -69,8 +78,18 @@ theorem untemplated_fields_kept (len : Nat) (rs : List (Nat × Rw)) (inp : Bytes
   Lemmas.ProtoRewriteSpec.rewrite_message_spec len rs inp recs0 result sf hok hv hsz hs
 
 open Lemmas.ProtoRewriteSpec in
-/-- the rewriter never panics, on any input and any rewriter tree (the seen-set is always large enough) -/
+/-- the rewriter never panics, on any input and any rewriter tree — unconditionally, all six constructors (the seen-set
+is always large enough; `mergeOccurrences` is a pure function) -/
 theorem rewrite_never_panics (fuel : Nat) (r : Rw) (inp : Bytes) (e : String) : rewrite fuel r inp ≠ .panic e :=
   (Lemmas.ProtoRewriteSpec.never_panics fuel).1 r inp e
+
+open Lemmas.ProtoRewriteSpec Spec.Protobuf in
+/-- what an `embddedRewriter{merge: true}` in the table slot of field `f` is handed at the first (length-delimited)
+occurrence with payload `v`, when the rest `m` of the input is a valid message with records `rest`: `v` followed by the
+payloads of all later length-delimited occurrences of `f`, in order — the specification's `laterPieces` -/
+theorem merge_sees_all_pieces (f : Nat) (v m : Bytes) (rest : List (Nat × WireVal)) (number len : Nat)
+    (rs : List (Nat × Rw)) (hv : parse (m.length + 1) m = some rest) :
+    mergeInput (.embeddedMerge number len rs) f 2 v m = v ++ laterPieces f rest :=
+  Lemmas.ProtoRewriteSpec.merge_sees_all_pieces f v m rest number len rs hv
 
 end Enc.Props.C19
